@@ -58,6 +58,9 @@ func assetKinds() map[string]asset {
 		"cut":       {H + "/cut.png", []Node{{URL: H + "/cut.png", Kind: "cut"}}},
 		"badpdf":    {H + "/a.pdf", []Node{{URL: H + "/a.pdf", Kind: "badpdf"}}},
 		"emptyxml":  {H + "/a.xml", []Node{{URL: H + "/a.xml", Kind: "emptyxml"}}},
+		// an embedded HTML document whose URL carries the marker of a site-specific branch of the postprocessor
+		// (strings.Contains on the whole URL): the tree rules hold whatever a URL looks like
+		"fbframe": {H + "/m/www.facebook.com/somepage/posts/10159.html", []Node{{URL: H + "/m/www.facebook.com/somepage/posts/10159.html", Kind: "html"}}},
 	}
 }
 
@@ -90,7 +93,7 @@ func MkSite(name, seedKind string, assets []string) SiteDef {
 // sweep: every seed kind x every multiset of <=2 asset kinds (assets only matter for seeds that reach the page).
 func SweepSites(tier string) []SiteDef {
 	var out []SiteDef
-	akeys := []string{"bin", "samepage", "js", "exhost", "404", "500", "redir", "redirB", "redirEx", "m3u8", "slash", "flaky", "429", "cut", "badpdf", "emptyxml", "redirSeed", "redirSelf"}
+	akeys := []string{"bin", "samepage", "js", "exhost", "404", "500", "redir", "redirB", "redirEx", "m3u8", "slash", "flaky", "429", "cut", "badpdf", "emptyxml", "redirSeed", "redirSelf", "fbframe"}
 	for _, sk := range []string{"404", "500", "nodot", "excluded", "badpdf", "emptyxml", "loop", "loopb", "wall"} {
 		out = append(out, MkSite("seed="+sk, sk, nil))
 	}
